@@ -233,6 +233,7 @@ func (r *report) finish() int {
 	unmodelled := map[string]int{} // paths cut at an operation the engine does not model on that symbolic shape
 	unwind := 0
 	rewrites, audits, byModel, folded := 0, 0, 0, 0
+	auditUnknown := 0
 	monChecks := 0
 	silent := 0
 	var auditFail []string
@@ -262,6 +263,7 @@ func (r *report) finish() int {
 		}
 		rewrites += st.Rewrites
 		audits += st.Audits
+		auditUnknown += st.AuditUnknown
 		byModel += st.ByModel
 		folded += st.Folded
 		monChecks += st.MonitorChecks
@@ -394,7 +396,7 @@ func (r *report) finish() int {
 		"same_value_stores_into_operands": silent,
 		"assertions_discharged_by_solver": evals,
 		"assertions_folded_by_path_equalities": folded,
-		"rewriting": map[string]any{"infeasible_by_rewriting": rewrites, "audited_with_cvc5": audits, "audit_mismatches": len(auditFail), "feasible_by_verified_model": byModel, "audit_every": r.cfg.AuditEvery},
+		"rewriting": map[string]any{"infeasible_by_rewriting": rewrites, "audited_with_cvc5": audits, "audit_mismatches": len(auditFail), "audits_where_both_solvers_gave_up": auditUnknown, "feasible_by_verified_model": byModel, "audit_every": r.cfg.AuditEvery},
 		"distinct_nontrivial":           distinct,
 		"rule":                          "a case is one complete feasible path of a harness through the real code's SSA (one equivalence class of inputs: same branch outcomes, same map-key matches, same iteration orders); evaluations = property assertions discharged unsat by the solver(s); a path is non-trivial when at least one of its property assertions still contained a symbolic variable when sent to the solver; paths are distinct by construction (distinct decision sequences)",
 		"exhaustive":                    complete && len(unsupported) == 0 && len(unmodelled) == 0 && len(r.inconclusive) == 0,
